@@ -132,4 +132,22 @@ theorem gen_divide_and_round_q_last_inplace_rounds (r : RNSTool) (p : RnsPoly) (
 theorem gen_mod_t_and_divide_q_last_ntt_inplace_eq : type_of% @HC.gr_mod_t_and_divide_q_last_ntt_inplace_eq :=
   @HC.gr_mod_t_and_divide_q_last_ntt_inplace_eq
 
+/-- coefficient-form BGV division generated from the source = `RNSTool.modTAndDivideQLast` (the `+=` of the inner loop traps on both sides alike) -/
+theorem gen_mod_t_and_divide_q_last_inplace_eq : type_of% @HC.gr_mod_t_and_divide_q_last_inplace_eq := @HC.gr_mod_t_and_divide_q_last_inplace_eq
+/-- END TO END (BGV, coefficient form): the generated function returns y mod q_i with y = (X − [X]_{q_L})/q_L − [−X q_L⁻¹]_t and y·q_L ≡ X (mod t) -/
+theorem gen_mod_t_and_divide_q_last_inplace_bgv : type_of% @HC.gr_mod_t_and_divide_q_last_inplace_bgv := @HC.gr_mod_t_and_divide_q_last_inplace_bgv
+/-- `divide_and_round_q_last_ntt_inplace` generated from the source = `RNSTool.divideAndRoundQLastNtt` (abstract inverse / lazy forward NTT of table i
+    instantiated with the model's `intt` / `nttLazy`; only `2^k = n` is used about the tables; no range assumption on the coefficients) -/
+theorem gen_divide_and_round_q_last_ntt_inplace_eq : type_of% @HC.gr_divide_and_round_q_last_ntt_inplace_eq := @HC.gr_divide_and_round_q_last_ntt_inplace_eq
+
+/-- BEHZ `sm_mrq` (Montgomery reduction mod q in base Bsk ∪ {m̃}) generated from the source = `RNSTool.smMrq`; destination buffer contents irrelevant;
+    every checked operation traps on both sides alike (no well-formedness hypotheses, only shapes / table sizes / buffer length fits a usize) -/
+theorem gen_sm_mrq_eq : type_of% @HC.gr_sm_mrq_eq := @HC.gr_sm_mrq_eq
+/-- `polysmallmod::multiply_operand` -/
+theorem gen_multiply_operand_eq (c : List Nat) (o : MulOperand) (m : Modulus) (r : List Nat) (h : r.length = c.length) :
+    HC.GenR.multiply_operand c o m r = c.mapM (fun x => mulOperandMod x o m) := HC.gr_multiply_operand_eq c o m r h
+/-- `util::set_uint` on buffers of exactly `len` words -/
+theorem gen_set_uint_eq (src tgt : List Nat) (n : Nat) (h1 : src.length = n) (h2 : tgt.length = n) : HC.GenR.set_uint src n tgt = .ok src :=
+  HC.gr_set_uint_eq src tgt n h1 h2
+
 end HC.C10
